@@ -23,6 +23,20 @@ Inductive prog :=
 | Save (n : Z) (k : prog)
 | RbTo (n : Z) (k : prog).
 
+(* domain of the save-point part of the property: a body rolls back only to save points it
+   created itself, at its own level (never across a block boundary downwards) *)
+Definition memz (x : Z) (l : list Z) := existsb (Z.eqb x) l.
+Fixpoint cutz (n : Z) (l : list Z) : list Z :=
+  match l with [] => [] | x :: r => if n =? x then l else cutz n r end.
+Fixpoint scoped (avail : list Z) (p : prog) : bool :=
+  match p with
+  | Done _ => true
+  | Write _ _ k | Read _ k => scoped avail k
+  | Child b _ k => scoped [] b && scoped avail k
+  | Save n k => scoped (n :: avail) k
+  | RbTo n k => memz n avail && scoped (cutz n avail) k
+  end.
+
 (* errors as the harness can tell them apart: errors.Is class + "is not the sentinel itself" *)
 Inductive ecode := EUser (n : Z) | EFault | ETxDone | EInvalidTx | ENoSp | EOther.
 Record err := mkErr { e_code : ecode; e_wrapped : bool }.
@@ -270,33 +284,40 @@ Fixpoint run_extra (l : list bool) (h : option err) (s : st) : list cls * st :=
               let '(o, s2) := run_extra r h1 s1 in (cls_oe h1 :: o, s2)
   end.
 
-(* DB.Transaction, outer branch (manual = false), or the documented manual pattern
-   tx := db.Begin(); defer rollback-on-panic; body; Rollback on error / Commit (manual = true) *)
+(* what happens after the block function ended: Commit / Rollback.
+   DB.Transaction, outer branch (manual = false): return tx.Commit().Error, deferred
+   tx.Rollback() when panicked or err != nil; or the documented manual pattern (manual = true):
+   Rollback on error / panic, else Commit, then the extra calls *)
+Definition finish (manual : bool) (extra : list bool) (r : res) (l : list obs) (h : option err) (s2 : st)
+  : obs * list cls * st :=
+  match r with
+  | ROk =>
+    let '(h2, s3) := h_end true h s2 in                       (* return tx.Commit().Error *)
+    match h2 with
+    | None => let '(x, s4) := run_extra (if manual then extra else []) h2 s3 in
+              (OC true l CNil CNil, x, s4)
+    | Some e =>
+      if manual then let '(x, s4) := run_extra extra h2 s3 in (OC true l CNil (CErr e), x, s4)
+      else let '(_, s4) := h_end false h2 s3 in                (* deferred tx.Rollback() *)
+           (OC true l CNil (CErr e), [], s4)
+    end
+  | RErr e =>
+    let '(h2, s3) := h_end false h s2 in                       (* tx.Rollback() *)
+    let '(x, s4) := run_extra (if manual then extra else []) h2 s3 in
+    (OC true l (CErr e) (CErr e), x, s4)
+  | RPan q =>
+    let '(_, s3) := h_end false h s2 in                        (* deferred tx.Rollback() *)
+    (OC true l (CPanic q) (CPanic q), [], s3)
+  end.
+
+(* tx := db.Begin(); if tx.Error != nil { return tx.Error }; run the function on tx; finish *)
 Definition run_top (manual : bool) (p : prog) (extra : list bool) (s0 : st) : obs * list cls * st :=
   let '(f, s1) := issue KBegin s0 in
   if f then (OC false [] CNil (CErr fault_err), [], log_tx s1 (TBegin false))   (* return tx.Error *)
   else
     let s1 := set_tx (log_tx s1 (TBegin true)) (Some (mkTx (s_db s1) [])) in
     let '(r, l, h, s2) := run_body p None s1 in
-    match r with
-    | ROk =>
-      let '(h2, s3) := h_end true h s2 in                       (* return tx.Commit().Error *)
-      match h2 with
-      | None => let '(x, s4) := run_extra (if manual then extra else []) h2 s3 in
-                (OC true l CNil CNil, x, s4)
-      | Some e =>
-        if manual then let '(x, s4) := run_extra extra h2 s3 in (OC true l CNil (CErr e), x, s4)
-        else let '(_, s4) := h_end false h2 s3 in                (* deferred tx.Rollback() *)
-             (OC true l CNil (CErr e), [], s4)
-      end
-    | RErr e =>
-      let '(h2, s3) := h_end false h s2 in                       (* tx.Rollback() *)
-      let '(x, s4) := run_extra (if manual then extra else []) h2 s3 in
-      (OC true l (CErr e) (CErr e), x, s4)
-    | RPan q =>
-      let '(_, s3) := h_end false h s2 in                        (* deferred tx.Rollback() *)
-      (OC true l (CPanic q) (CPanic q), [], s3)
-    end.
+    finish manual extra r l h s2.
 
 End Run.
 
